@@ -2,6 +2,11 @@
 
 package evm
 
+import (
+	"runtime"
+	"sync/atomic"
+)
+
 // VerifSetValidateRoutineCount sets the number of signature-checking goroutines that
 // exeWithCPUParallelVeirfy starts for every block (package variable validateRoutineCount,
 // default runtime.NumCPU(), values outside 1..16 are replaced by 8 by the verifier itself)
@@ -10,4 +15,28 @@ func VerifSetValidateRoutineCount(n int) int {
 	old := validateRoutineCount
 	validateRoutineCount = n
 	return old
+}
+
+var verifPoolGate atomic.Value // *func(caller string)
+
+// VerifSetPoolLockGate installs (nil: removes) a function that every goroutine calls immediately
+// before it acquires the transaction pool's mutex (ethTxPool.Lock), with the name of the
+// function that asks for the lock. The gate may block: check C19 uses it to own the order in
+// which concurrent submitters and the commit path get the pool lock.
+func VerifSetPoolLockGate(f func(caller string)) {
+	verifPoolGate.Store(&f)
+}
+
+func verifPoolLockGate() {
+	p, _ := verifPoolGate.Load().(*func(string))
+	if p == nil || *p == nil {
+		return
+	}
+	name := "?"
+	if pc, _, _, ok := runtime.Caller(2); ok {
+		if fn := runtime.FuncForPC(pc); fn != nil {
+			name = fn.Name()
+		}
+	}
+	(*p)(name)
 }
